@@ -323,6 +323,23 @@ func (g *gen) arg(pattern bool) string {
 	}
 }
 
+// realStmts are keyword / argument pairs of real YANG modules (arguments without blanks or
+// quotes, so that they can be written in any quoting style).
+var realStmts = [][2]string{
+	{"yang-version", "1"}, {"yang-version", "1"}, {"yang-version", "1.1"}, {"yang-version", "1"}, {"module", "m"}, {"submodule", "s"},
+	{"namespace", "urn:m"}, {"prefix", "m"}, {"import", "x"}, {"include", "y"}, {"belongs-to", "m"}, {"revision", "2020-01-01"},
+	{"revision-date", "2020-01-01"}, {"description", "text"}, {"reference", "RFC7950"}, {"contact", "nobody"}, {"organization", "none"},
+	{"container", "c"}, {"leaf", "l"}, {"leaf-list", "ll"}, {"list", "li"}, {"key", "k"}, {"type", "string"}, {"type", "enumeration"},
+	{"typedef", "t"}, {"grouping", "g"}, {"uses", "g"}, {"augment", "/m:c"}, {"deviation", "/m:c"}, {"deviate", "not-supported"},
+	{"config", "false"}, {"mandatory", "true"}, {"default", "d"}, {"units", "u"}, {"length", "1..5"}, {"range", "1..5"},
+	{"must", "../x"}, {"when", "../y"}, {"error-message", "bad"}, {"error-app-tag", "tag"}, {"path", "../k"}, {"enum", "e"}, {"bit", "b"},
+	{"value", "1"}, {"position", "0"}, {"fraction-digits", "2"}, {"identity", "i"}, {"base", "i"}, {"feature", "f"}, {"if-feature", "f"},
+	{"extension", "e"}, {"argument", "a"}, {"yin-element", "true"}, {"rpc", "r"}, {"input", ""}, {"output", ""}, {"action", "a"},
+	{"notification", "n"}, {"choice", "ch"}, {"case", "ca"}, {"anyxml", "ax"}, {"anydata", "ad"}, {"presence", "p"}, {"status", "deprecated"},
+	{"ordered-by", "user"}, {"min-elements", "1"}, {"max-elements", "unbounded"}, {"unique", "k"}, {"modifier", "invert-match"},
+	{"require-instance", "false"}, {"refine", "l"},
+}
+
 func (g *gen) stmt(depth int) string {
 	kw := g.word()
 	if strings.ContainsAny(kw, "+") && g.r.Intn(2) == 0 {
@@ -348,7 +365,23 @@ func (g *gen) stmt(depth int) string {
 		return s + g.optws() + "}"
 	}
 	s := kw
-	if g.r.Intn(4) > 0 {
+	if g.r.Intn(7) == 0 {
+		// statements of real YANG, keyword and argument: to the generic reader they are
+		// statements like any other, whatever they mean to the later stages (a seeded
+		// change made the lexer lenient about escapes after "yang-version 1")
+		rs := realStmts[g.r.Intn(len(realStmts))]
+		s = rs[0]
+		if rs[1] != "" {
+			switch g.r.Intn(3) {
+			case 0:
+				s += g.ws() + rs[1]
+			case 1:
+				s += g.ws() + "'" + rs[1] + "'"
+			default:
+				s += g.ws() + "\"" + rs[1] + "\""
+			}
+		}
+	} else if g.r.Intn(4) > 0 {
 		s += g.ws() + g.arg(kw == "pattern")
 	}
 	md := g.maxDepth
